@@ -91,6 +91,28 @@ impl Ctx {
         );
     }
 
+    /// Failures recorded so far (for worker processes to hand to the parent).
+    pub fn export_fails(&self) -> Value {
+        let seen = self.seen.lock().unwrap_or_else(|e| e.into_inner());
+        Value::Array(seen.iter().map(|(k, s)| json!({"signature": k, "detail": s.detail, "witness": s.witness, "count": s.count})).collect())
+    }
+
+    pub fn import_fails(&self, v: &Value) {
+        if let Some(a) = v.as_array() {
+            let mut seen = self.seen.lock().unwrap_or_else(|e| e.into_inner());
+            for f in a {
+                let sig = f["signature"].as_str().unwrap_or("?").to_string();
+                let count = f["count"].as_u64().unwrap_or(1);
+                match seen.get_mut(&sig) {
+                    Some(s) => s.count += count,
+                    None => {
+                        seen.insert(sig, Seen { detail: f["detail"].as_str().unwrap_or("").to_string(), witness: f["witness"].clone(), count });
+                    }
+                }
+            }
+        }
+    }
+
     pub fn is_known(&self, signature: &str) -> bool {
         self.known
             .iter()
@@ -401,6 +423,41 @@ impl Stats {
         }
         self
     }
+    pub fn to_json(&self) -> Value {
+        json!({
+            "evaluations": self.evaluations,
+            "nontrivial": self.nontrivial.iter().map(|h| format!("{:032x}", h)).collect::<Vec<_>>(),
+            "outcomes": self.outcomes,
+            "dims": self.dims,
+            "samples": self.samples,
+            "counters": self.counters,
+        })
+    }
+
+    pub fn from_json(v: &Value) -> Stats {
+        let mut s = Stats::new();
+        s.evaluations = v["evaluations"].as_u64().unwrap_or(0);
+        if let Some(a) = v["nontrivial"].as_array() {
+            for h in a {
+                if let Some(x) = h.as_str().and_then(|x| u128::from_str_radix(x, 16).ok()) {
+                    s.nontrivial.insert(x);
+                }
+            }
+        }
+        let map = |v: &Value| -> BTreeMap<String, u64> { v.as_object().map(|o| o.iter().map(|(k, x)| (k.clone(), x.as_u64().unwrap_or(0))).collect()).unwrap_or_default() };
+        s.outcomes = map(&v["outcomes"]);
+        s.counters = map(&v["counters"]);
+        if let Some(o) = v["dims"].as_object() {
+            for (k, x) in o {
+                s.dims.insert(k.clone(), map(x));
+            }
+        }
+        if let Some(a) = v["samples"].as_array() {
+            s.samples = a.clone();
+        }
+        s
+    }
+
     pub fn coverage(&self, rule: &str, exhaustive: bool, bound: Value) -> Value {
         json!({
             "evaluations": self.evaluations,
@@ -465,4 +522,31 @@ pub fn unhex(s: &str) -> Vec<u8> {
 pub fn machinery(msg: &str) -> ! {
     eprintln!("MACHINERY: {msg}");
     std::process::exit(3);
+}
+
+/// Spawns `n` worker processes of this binary (`<prop> <tier> --worker <i> <n>`) and returns the
+/// JSON each printed on its `WORKER_RESULT ` line. A worker that dies is a machinery failure.
+pub fn run_workers(prop: &str, tier: Tier, n: usize) -> Vec<Value> {
+    let exe = std::env::current_exe().unwrap_or_else(|e| machinery(&format!("current_exe: {e}")));
+    let children: Vec<_> = (0..n)
+        .map(|i| {
+            std::process::Command::new(&exe)
+                .args([prop, tier.name(), "--worker", &i.to_string(), &n.to_string()])
+                .stdout(std::process::Stdio::piped())
+                .stderr(std::process::Stdio::inherit())
+                .spawn()
+                .unwrap_or_else(|e| machinery(&format!("spawn worker: {e}")))
+        })
+        .collect();
+    let mut out = Vec::new();
+    for (i, c) in children.into_iter().enumerate() {
+        let o = c.wait_with_output().unwrap_or_else(|e| machinery(&format!("wait worker: {e}")));
+        let text = String::from_utf8_lossy(&o.stdout).to_string();
+        let line = text.lines().find_map(|l| l.strip_prefix("WORKER_RESULT "));
+        match line.and_then(|l| serde_json::from_str::<Value>(l).ok()) {
+            Some(v) => out.push(v),
+            None => machinery(&format!("worker {i} of {prop} produced no result (status {:?}); output tail: {}", o.status, text.chars().rev().take(400).collect::<String>().chars().rev().collect::<String>())),
+        }
+    }
+    out
 }
